@@ -1,6 +1,6 @@
 //! Shared pieces of the generated Coq files.
 use crate::configs::RState;
-use crate::prog::dyadic;
+use crate::prog::{dyadic, Prog};
 
 pub fn header(mods: &[&str]) -> String {
     let mut s = String::new();
@@ -20,3 +20,56 @@ pub fn states_def(name: &str, states: &[RState]) -> String {
     let v: Vec<String> = states.iter().map(|s| dy_list(&s.vars())).collect();
     format!("Definition {} : list (list (Z * Z)) := [{}].\n", name, v.join(";\n "))
 }
+
+/// The AC-canonicaliser (coq/theories/Canon.v) on two regenerated programs `A_prog`, `B_prog` (already emitted).
+/// The shared environment consists of `nv` shared state variables (`zv[i]`: variable i is literally zero) followed by
+/// the distinct constant values of both programs; `sa` / `sb` select the variables of A / B.  Outputs with the same
+/// name are paired.  `pair_agree` is the instance of `<theorem>` for every pair whose flag is true (the flags are
+/// computed, then the computation is re-checked by the kernel in `pair_canon_eq`).  Returns the text and the paired names.
+pub fn canon_block(pa: &Prog, pb: &Prog, nv: usize, sa: &[usize], sb: &[usize], zv: &[bool], theorem: &str) -> (String, Vec<String>) {
+    let mut vals: Vec<f64> = Vec::new();
+    let mut slot = |x: f64| -> usize {
+        match vals.iter().position(|y| *y == x) {
+            Some(i) => nv + i,
+            None => {
+                vals.push(x);
+                nv + vals.len() - 1
+            }
+        }
+    };
+    let mut pia = sa.to_vec();
+    pia.extend(pa.consts.iter().map(|&x| slot(x)));
+    let mut pib = sb.to_vec();
+    pib.extend(pb.consts.iter().map(|&x| slot(x)));
+    let mut zs: Vec<bool> = zv.to_vec();
+    zs.extend(vals.iter().map(|x| *x == 0.0));
+    let nl = |l: &[usize]| l.iter().map(|i| format!("{i}%nat")).collect::<Vec<_>>().join("; ");
+    let mut v = String::new();
+    let mut names = Vec::new();
+    v.push_str("From FeosVerif Require Import Canon.\n");
+    v.push_str(&format!("Definition C_zs : list bool := [{}].\n", zs.iter().map(|b| b.to_string()).collect::<Vec<_>>().join("; ")));
+    v.push_str(&format!("Definition C_piA : list nat := [{}].\nDefinition C_piB : list nat := [{}].\n", nl(&pia), nl(&pib)));
+    // pairs of outputs with the same name (contributions; the last one is the total): positions in the value lists
+    let (na, nb) = (pa.outs.len(), pb.outs.len());
+    let mut pairs = Vec::new();
+    for (ja, name) in pa.outs.iter().enumerate() {
+        if let Some(jb) = pb.outs.iter().position(|x| x == name) {
+            pairs.push(format!("({}, {})%nat", na - 1 - ja, nb - 1 - jb));
+            names.push(name.clone());
+        }
+    }
+    v.push_str(&format!("Definition C_outs : list (nat * nat) := [{}].\n", pairs.join("; ")));
+    v.push_str(&CANON_BODY.replace("THEOREM", theorem));
+    (v, names)
+}
+
+const CANON_BODY: &str = r#"
+Definition pair_canon : list bool := Eval vm_compute in canon_eqbs A_prog B_prog C_zs C_piA C_piB C_outs.
+Lemma pair_canon_eq : canon_eqbs A_prog B_prog C_zs C_piA C_piB C_outs = pair_canon.
+Proof. vm_compute. reflexivity. Qed.
+Definition pair_agree (k : nat) (Hk : (k < List.length C_outs)%nat) (H : nth k pair_canon false = true) (env : list R) :=
+  THEOREM A_prog B_prog C_zs C_piA C_piB _ _ env
+    (canon_eqbs_nth A_prog B_prog C_zs C_piA C_piB C_outs k Hk (eq_ind_r (fun l => nth k l false = true) H pair_canon_eq)).
+Check pair_agree.
+Eval vm_compute in ("CANON", "P", pair_canon).
+"#;
